@@ -930,6 +930,90 @@ fn many_targets(n: usize) -> Vec<&'static str>
     let mut v : Vec<&'static str> = (0..n).map(|i| { let p : &'static str = Box::leak(format!("chapter{:02}.txt", i).into_boxed_str()); p }).collect();
     v.push("book.txt"); v
 }
+fn chain_rules(n: usize) -> String
+{
+    let mut out = String::new();
+    for i in 0..n
+    {
+        let src = if i == 0 { "link00.src".to_string() } else { format!("link{:02}.txt", i - 1) };
+        out.push_str(&format!("link{:02}.txt\n:\n{}\n:\nmycat\n{}\nlink{:02}.txt\n:\n\n", i, src, src, i));
+    }
+    out
+}
+fn chain_targets(n: usize) -> Vec<&'static str> { (0..n).map(|i| { let p : &'static str = Box::leak(format!("link{:02}.txt", i).into_boxed_str()); p }).collect() }
+const RULES_SIX : &str = "\
+t1.txt
+t2.txt
+t3.txt
+t4.txt
+t5.txt
+t6.txt
+:
+p.src
+q.src
+:
+mycat
+p.src
+t1.txt
+;
+mycat
+q.src
+t2.txt
+;
+mycat
+p.src
+q.src
+t3.txt
+;
+mycat
+q.src
+p.src
+t4.txt
+;
+mycat
+p.src
+p.src
+t5.txt
+;
+mycat
+q.src
+q.src
+t6.txt
+:
+
+last.txt
+:
+t6.txt
+:
+mycat
+t6.txt
+t6.txt
+t6.txt
+last.txt
+:
+";
+fn long_name() -> String { format!("{}.txt", "l".repeat(180)) }
+fn odd_rules() -> String
+{
+    format!("my notes.txt\n:\nmy notes.src\n:\nmycat\nmy notes.src\nmy notes.txt\n:\n\np\u{e4}th/\u{fc}ber.txt\n:\nmy notes.txt\n:\nmycat\nmy notes.txt\nmy notes.txt\np\u{e4}th/\u{fc}ber.txt\n:\n\n{}\n:\nbig.src\nmy notes.src\n:\nmycat\nbig.src\nmy notes.src\n{}\n:\n", long_name(), long_name())
+}
+fn odd_files() -> Vec<(&'static str, &'static str)>
+{
+    let big : &'static str = Box::leak((0..7000).map(|i| format!("line {:04}\n", i)).collect::<String>().into_boxed_str());
+    vec![("my notes.src", "my notes\n"), ("big.src", big)]
+}
+fn odd_targets() -> Vec<&'static str> { let l : &'static str = Box::leak(long_name().into_boxed_str()); vec!["my notes.txt", "p\u{e4}th/\u{fc}ber.txt", l] }
+const RULES_DIRSRC : &str = "\
+whole.txt
+:
+parts
+:
+mycat
+parts/a.txt
+parts/sub/b.txt
+whole.txt
+:
+";
 const RULES_EQUAL : &str = "\
 joined.txt
 :
@@ -1062,6 +1146,37 @@ fn verif_build_mini_scenarios()
                histories: vec![
                    vec![Build, Clean, Build],
                    vec![Build, Build],
+               ] },
+        /*  a deep chain: 40 rules, each made from the one before */
+        Mini { name: "a chain of forty rules", rules: Box::leak(chain_rules(40).into_boxed_str()), files: &[("link00.src", "the first link\n")], dirs: &[],
+               targets: Box::leak(chain_targets(40).into_boxed_slice()),
+               histories: vec![
+                   vec![Build, Write("link00.src", "another first link\n"), Build, Write("link00.src", "the first link\n"), Build],
+                   vec![Build, Clean, Build],
+                   vec![BuildGoal("link20.txt", Box::leak(chain_targets(21).into_boxed_slice())), Build],
+               ] },
+        /*  one rule with six targets (six command lines), and a rule that needs the last of them only */
+        Mini { name: "a six-target rule", rules: RULES_SIX, files: &[("p.src", "P\n"), ("q.src", "Q\n")], dirs: &[],
+               targets: &["t1.txt", "t2.txt", "t3.txt", "t4.txt", "t5.txt", "t6.txt", "last.txt"],
+               histories: vec![
+                   vec![Build, Write("q.src", "Q2\n"), Build, Write("q.src", "Q\n"), Build],
+                   vec![Build, Delete("t4.txt"), Build, Clean, Build],
+                   vec![BuildGoal("last.txt", &["t1.txt", "t2.txt", "t3.txt", "t4.txt", "t5.txt", "t6.txt", "last.txt"]), Write("p.src", "P2\n"), Build],
+               ] },
+        /*  names with spaces, non-ASCII letters and a very long name; a big source (70 KB) */
+        Mini { name: "odd names and a big file", rules: Box::leak(odd_rules().into_boxed_str()), files: Box::leak(odd_files().into_boxed_slice()), dirs: &["p\u{e4}th"],
+               targets: Box::leak(odd_targets().into_boxed_slice()),
+               histories: vec![
+                   vec![Build, Build, Clean, Build],
+                   vec![Build, Write("my notes.src", "other notes\n"), Build, Write("my notes.src", "my notes\n"), Build],
+               ] },
+        /*  a directory as a source: what is inside it counts */
+        Mini { name: "a directory as a source", rules: RULES_DIRSRC, files: &[("parts/a.txt", "part a\n"), ("parts/sub/b.txt", "part b\n")], dirs: &["parts", "parts/sub"],
+               targets: &["whole.txt"],
+               histories: vec![
+                   vec![Build, Write("parts/sub/b.txt", "part b, revised\n"), Build, Write("parts/sub/b.txt", "part b\n"), Build],
+                   vec![Build, Write("parts/a.txt", "part b\n"), Write("parts/sub/b.txt", "part a\n"), Build],
+                   vec![Build, Build, Clean, Build],
                ] },
         Mini { name: "several rules fail alike", rules: RULES_FAILS, files: &[("in.txt", "input\n")], dirs: &[],
                targets: &["left.txt", "right.txt", "middle.txt", "far.txt", "further.txt"],
